@@ -162,6 +162,12 @@ Definition iobs_eqb (a b : iobs) : bool :=
   list_eqb kn_eqb (i_sc a) (i_sc b) && list_eqb kn_eqb (i_sh a) (i_sh b) && list_eqb kn_eqb (i_fi a) (i_fi b) &&
   list_eqb kn_eqb (i_eh a) (i_eh b) && Bool.eqb (i_bt a) (i_bt b).
 
+(** "malformed rules are rejected" holds for the default rule as well: whenever the rule factory exists
+    (a rule or a rule set could be handed to it), a default rule in scope must be one the specification accepts —
+    a misordered one, one with a malformed step, one without an authenticator must have stopped the start-up *)
+Definition default_accepted (d : option default_def) : bool :=
+  if scoped_default d then match spec_default_opt d with Some _ => true | None => false end else true.
+
 Section PropRule.
   Context {O : Type} (obs_of : effective -> O) (eqb : O -> O -> bool).
 
@@ -169,11 +175,13 @@ Section PropRule.
       of it must be what is observed of the specification's effective rule.  A
       rejection never violates the statement (it does not say that nothing else
       is rejected — over-rejection shows as a correspondence failure only); a
-      panic is not a rejection.  Outside the scope of the statement, and for a
-      default rule the specification does not accept, nothing is demanded. *)
+      panic is not a rejection.  Outside the scope of the statement nothing is
+      demanded.  A factory that exists over a malformed default rule violates
+      the property whatever happens to the rule ([default_accepted]). *)
   Definition prop_rule (proxy : bool) (d : option default_def) (r : rule_def) (o : load_res O) : bool :=
     match o with
     | Loaded (Ok x) =>
+        default_accepted d &&
         if scoped_default d && scoped_rule r then
           match spec_default_opt d with
           | Some def => match spec_rule proxy def r with
@@ -183,7 +191,8 @@ Section PropRule.
           | None => true
           end
         else true
-    | Loaded Rejected | FactoryFailed => true
+    | Loaded Rejected => default_accepted d
+    | FactoryFailed => true
     | Loaded Panic | FactoryPanic => false
     end.
 End PropRule.
@@ -213,6 +222,7 @@ Section PropSet.
   Definition prop_set (proxy : bool) (d : option default_def) (preload : nat) (sd : set_def) (o : set_res) : bool :=
     match o with
     | SDone accepted sv =>
+        default_accepted d &&
         if scoped_default d && forallb scoped_rule (sd_rules sd) then
           match spec_default_opt d with
           | Some def =>
